@@ -220,8 +220,15 @@ def run(ctx):
                 ctx.violation(key, "LoadDatabase returns %d after the history but %d on a fresh instance" % (a["load_rc"], b["load_rc"]), {"kind": "history", "case": case})
             continue
         dumped = any(h[0] == "run" and "DUMP" in h[1] for h in case["hist"])
+        filed = any(h[0] == "run" and re.search(r"(?im)^\s*-fi", h[1]) for h in case["hist"])
         for stage in ("after_load", "after_probe", "final"):
-            d = diff_obs(norm(a[stage]), norm(b[stage]))
+            oa, ob = norm(a[stage]), norm(b[stage])
+            if filed:
+                # a selected-output file name given with -file in an earlier input is a user-set file name: it survives the load by design
+                for o in (oa, ob):
+                    for v in o.get("sel", {}).values():
+                        v.pop("fileName", None)
+            d = diff_obs(oa, ob)
             if d and dumped and ("/dump" in d or "dump" in d.split(":")[0]):
                 ctx.violation("C07:dump_info-survives-load", "a DUMP request of an earlier run survives LoadDatabase (Phreeqc::dump_info is not reset by clean_up/init): the first runs after the load dump again (%s): %s" % (stage, d),
                               {"kind": "history", "case": case, "observed": d})
